@@ -67,7 +67,7 @@ func Start(id, level string) *Run {
 	// internal wall-clock guard: a guard that fires ends the run with exhaustive:false, never an alarm
 	budget := 20 * time.Minute
 	if r.Tier == "thorough" {
-		budget = 3 * time.Hour
+		budget = 60 * time.Minute
 	}
 	if s := os.Getenv("VERIF_BUDGET_S"); s != "" {
 		if v, err := strconv.Atoi(s); err == nil {
@@ -87,6 +87,16 @@ func (r *Run) Pick(q, t int) int {
 		return t
 	}
 	return q
+}
+
+// DeadlineIn returns the earlier of the run's internal deadline and now+d: the wall-clock share of one
+// part of a check (an exploration that does not finish inside it reports what it completed, never an alarm).
+func (r *Run) DeadlineIn(d time.Duration) time.Time {
+	t := time.Now().Add(d)
+	if r.deadline.Before(t) {
+		return r.deadline
+	}
+	return t
 }
 
 // OutOfTime is true once the internal budget is used up; the caller stops enumerating
